@@ -12,6 +12,7 @@ Definition okey_eqb : option bytes -> option bytes -> bool := option_eqb bytes_e
 
 Inductive c11_case :=
 | UnmarshalPriv (d : bytes) (o : obs bytes)                 (* crypto.UnmarshalPrivateKey -> Raw *)
+| UnmarshalPubKey (d : bytes) (o : obs bytes)               (* crypto.UnmarshalPublicKey -> Raw *)
 | MarshalPriv (k d : bytes)                                 (* crypto.MarshalPrivateKey *)
 | UnmarshalEdPriv (d : bytes) (o : obs bytes)               (* crypto.UnmarshalEd25519PrivateKey -> Raw *)
 | GetPublic (k : bytes) (o : obs bytes)                     (* PrivKey.GetPublic().Raw() *)
@@ -29,6 +30,7 @@ Inductive c11_case :=
 Definition c11_agree (c : c11_case) : bool :=
   match c with
   | UnmarshalPriv d o => obs_agree bytes_eqb (unmarshal_priv d) o
+  | UnmarshalPubKey d o => obs_agree bytes_eqb (unmarshal_pub d) o
   | MarshalPriv k d => bytes_eqb (marshal_priv k) d
   | UnmarshalEdPriv d o => obs_agree bytes_eqb (unmarshal_ed25519_priv d) o
   | GetPublic k o => obs_agree bytes_eqb (priv_get_public k) o
